@@ -2169,7 +2169,7 @@ impl CharacterData for XmlText {
         if self.length() < offset {
             Err(error::DomException::IndexSizeErr)?
         } else {
-            Ok(self.data.borrow().substring(offset..(offset + count)))
+            Ok(self.data.borrow().substring(offset..offset.saturating_add(count)))
         }
     }
 }
@@ -2324,7 +2324,7 @@ impl CharacterData for XmlComment {
         if self.length() < offset {
             Err(error::DomException::IndexSizeErr)?
         } else {
-            Ok(self.data.borrow().substring(offset..(offset + count)))
+            Ok(self.data.borrow().substring(offset..offset.saturating_add(count)))
         }
     }
 }
@@ -2508,7 +2508,7 @@ impl CharacterData for XmlCDataSection {
         if self.length() < offset {
             Err(error::DomException::IndexSizeErr)?
         } else {
-            Ok(self.data.borrow().substring(offset..(offset + count)))
+            Ok(self.data.borrow().substring(offset..offset.saturating_add(count)))
         }
     }
 }
